@@ -71,11 +71,12 @@ CLAIM = {
             "generated tree.",
 }
 
-POOL = ["age", "bmi", "sex", "alive", "wt", "kids", "tracked_by", "untracked_n"]
+POOL = ["age", "bmi", "sex", "alive", "wt", "kids", "tracked_by", "untracked_n", "tracked by", "is tracked"]
 NAME2ID = {"tracked": 0, "age": 1, "bmi": 2, "sex": 3, "alive": 4, "wt": 5, "kids": 6, "zz": 7, "yy": 8,
-           "tracked_by": 9, "untracked_n": 10}
+           "tracked_by": 9, "untracked_n": 10, "tracked by": 11, "is tracked": 12}
 DTS = ["bool", "int", "float", "str"]
-STRS = ["x", "y", "z", "w", "q", "tracked", "a#b", "it's"]      # "q" and "it's" never occur in a table
+# string ids = rank in Python's string order (the model compares strings by id); "q", "it's", "`tracked`" never occur in a table
+STRS = sorted(["x", "y", "z", "w", "q", "tracked", "a#b", "it's", "`tracked`"])
 CELL_STRS = ["x", "y", "z", "w", "x", "y", "tracked", "a#b"]
 OPS = ["==", "!=", "<", "<=", ">", ">="]
 FLIP = {"==": "==", "!=": "!=", "<": ">", "<=": ">=", ">": "<", ">=": "<="}
@@ -96,6 +97,21 @@ def gen_const(rng, dt):
     if dt == "float":
         return ["f", rng.randint(-6, 14)] if rng.random() < 0.8 else ["i", rng.randint(-2, 4)]
     return ["s", rng.choice(STRS)]
+
+
+def gen_term(rng, avail, first, depth):
+    """["c", name] | ["k", const] | [op, a, b] with op in + - *; over int/float columns and small constants"""
+    nums = [m for m in avail if m != "__bare__" and avail[m] in ("int", "float")]
+    r = rng.random()
+    if first is not None and depth >= 2:
+        a = ["c", first]
+        b = gen_term(rng, avail, None, 0)
+        return [rng.choice(["+", "-", "*", "+"]), a, b] if rng.random() < 0.5 else [rng.choice(["+", "-", "*"]), b, a]
+    if depth <= 0 or r < 0.6:
+        if nums and rng.random() < 0.5:
+            return ["c", rng.choice(nums)]
+        return ["k", ["i", rng.randint(0, 4)] if rng.random() < 0.7 else ["f", rng.randint(1, 10)]]
+    return [rng.choice(["+", "-", "*"]), gen_term(rng, avail, None, depth - 1), gen_term(rng, avail, None, depth - 1)]
 
 
 def gen_atom(rng, avail, p_tracked):
@@ -131,9 +147,11 @@ def gen_atom(rng, avail, p_tracked):
     if k < 0.26:                                               # column against column of the same kind
         same = [m for m in names if (avail[m] == "str") == (dt == "str") and avail[m] != "bool"]
         m = rng.choice(same)
-        return ["cmpc", n, rng.choice(["==", "!="] if dt == "str" else OPS), m]
+        return ["cmpc", n, rng.choice((["==", "!="] if dt == "str" else []) + OPS), m]
     if dt == "str":
-        return ["cmp", n, rng.choice(["==", "!="]), gen_const(rng, dt)]
+        return ["cmp", n, rng.choice(["==", "!=", "==", "!="] + OPS), gen_const(rng, dt)]
+    if k < 0.42:                                               # arithmetic on int/float columns
+        return ["cmpt", gen_term(rng, avail, n, 2), rng.choice(OPS), gen_term(rng, avail, None, 1)]
     return ["cmp", n, rng.choice(OPS), gen_const(rng, dt)]
 
 
@@ -177,8 +195,26 @@ def render_const(rng, k):
     return ("'%s'" if rng.random() < 0.5 else '"%s"') % v
 
 
+_STYLE = {"backtick_all": False}
+
+
 def render_name(rng, n):
-    return f"`{n}`" if rng.random() < 0.08 else n
+    if not n.isidentifier() or _STYLE["backtick_all"]:
+        return f"`{n}`"
+    return f"`{n}`" if rng.random() < (0.3 if n == "tracked" else 0.08) else n
+
+
+def render_term(rng, t, parent=0):
+    """+ - : 1, * : 2, atom 3"""
+    if t[0] == "c":
+        return render_name(rng, t[1])
+    if t[0] == "k":
+        return render_const(rng, t[1])
+    prec = 2 if t[0] == "*" else 1
+    sp = " " if rng.random() < 0.8 else ""
+    # left operand at the same precedence needs no parentheses; the right one does (a - (b - c))
+    s = render_term(rng, t[1], prec) + sp + t[0] + sp + render_term(rng, t[2], prec + 1)
+    return "(" + s + ")" if prec < parent or rng.random() < 0.1 else s
 
 
 def render(rng, q, parent=0, sym=None):
@@ -198,6 +234,8 @@ def render(rng, q, parent=0, sym=None):
         prec = 4
     elif tag == "cmpc":
         s, prec = f"{render_name(rng, q[1])}{sp}{q[2]}{sp}{render_name(rng, q[3])}", 4
+    elif tag == "cmpt":
+        s, prec = f"{render_term(rng, q[1])} {q[2]} {render_term(rng, q[3])}", 4
     elif tag == "in":
         lst = "[" + ", ".join(render_const(rng, k) for k in q[2]) + "]"
         s, prec = f"{render_name(rng, q[1])} {'==' if rng.random() < 0.2 else 'in'} {lst}", 4
@@ -218,18 +256,22 @@ def render(rng, q, parent=0, sym=None):
             lst = "[" + ", ".join(render_const(rng, k) for k in inner[2]) + "]"
             s, prec = f"{render_name(rng, inner[1])} {'!=' if r < 0.12 else 'not in'} {lst}", 4
         elif sym and r < 0.7:
-            s = ("~" + inner[1]) if inner[0] == "col" else ("~(" + render(rng, inner, 0, sym) + ")")
+            s = ("~" + render_name(rng, inner[1])) if inner[0] == "col" else ("~(" + render(rng, inner, 0, sym) + ")")
             prec = 4
         else:
             s, prec = "not " + render(rng, inner, 3, sym), 3
-    if prec < parent or (parent > 0 and tag in ("cmp", "cmpc", "in", "not") and sym) or rng.random() < 0.12:
+    if prec < parent or (parent > 0 and tag in ("cmp", "cmpc", "cmpt", "in", "not") and sym) or rng.random() < 0.12:
         s = "(" + s + ")"
     return s
 
 
 def render_query(rng, q, comment=True):
     """Query text for the tree q ("" for None), now and then with a trailing comment."""
-    s = render(rng, q) if q is not None else ""
+    _STYLE["backtick_all"] = rng.random() < 0.15          # every name of this query in backticks
+    try:
+        s = render(rng, q) if q is not None else ""
+    finally:
+        _STYLE["backtick_all"] = False
     if s and comment and rng.random() < 0.12:
         s += rng.choice(["  # ", " #", "# "]) + rng.choice(COMMENTS)
     return s
@@ -242,9 +284,23 @@ def tree_cols(q):
         return [q[1]]
     if q[0] == "cmpc":
         return [q[1], q[3]]
+    if q[0] == "cmpt":
+        return term_cols(q[1]) + term_cols(q[3])
     if q[0] == "not":
         return tree_cols(q[1])
     return tree_cols(q[1]) + tree_cols(q[2])
+
+
+def term_cols(t):
+    return [t[1]] if t[0] == "c" else [] if t[0] == "k" else term_cols(t[1]) + term_cols(t[2])
+
+
+def c_term(t):
+    if t[0] == "c":
+        return f"(TCol {cz(NAME2ID[t[1]])})"
+    if t[0] == "k":
+        return f"(TConst {c_cell(t[1])})"
+    return f"({ {'+': 'TAdd', '-': 'TSub', '*': 'TMul'}[t[0]] } {c_term(t[1])} {c_term(t[2])})"
 
 
 def c_cell(c):
@@ -272,6 +328,8 @@ def c_tree(q):
         return f"(QCmpC {cz(NAME2ID[q[1]])} {COQ_OP[q[2]]} {cz(NAME2ID[q[3]])})"
     if t == "in":
         return f"(QIn {cz(NAME2ID[q[1]])} {clist(c_cell(k) for k in q[2])})"
+    if t == "cmpt":
+        return f"(QCmpT {c_term(q[1])} {COQ_OP[q[2]]} {c_term(q[3])})"
     if t == "not":
         return f"(QNot {c_tree(q[1])})"
     return f"({'QAnd' if t == 'and' else 'QOr'} {c_tree(q[1])} {c_tree(q[2])})"
@@ -296,13 +354,26 @@ def ref_cmp(op, a, b):
 
 
 def ref_cells(op, c, k):
-    """NaN/None: every comparison false except !=; strings: (in)equality only."""
+    """NaN/None: every comparison false except !=; strings in Python's string order."""
     x, y = ref_num(c), ref_num(k)
     if x is not None and y is not None:
         return ref_cmp(op, x, y)
     if c is not None and k is not None and c[0] == "s" and k[0] == "s":
-        return ref_cmp(op, c[1], k[1]) if op in ("==", "!=") else False
+        return ref_cmp(op, c[1], k[1])
     return op == "!="
+
+
+def ref_term(t, row):
+    """exact value (Fraction) or None for NaN"""
+    from fractions import Fraction
+    if t[0] in ("c", "k"):
+        c = row[t[1]] if t[0] == "c" else tuple(t[1])
+        x = ref_num(c)
+        return None if x is None else Fraction(x, 4)
+    a, b = ref_term(t[1], row), ref_term(t[2], row)
+    if a is None or b is None:
+        return None
+    return a + b if t[0] == "+" else a - b if t[0] == "-" else a * b
 
 
 def ref_eval(q, row):
@@ -319,6 +390,9 @@ def ref_eval(q, row):
         return ref_cells(q[2], row[q[1]], row[q[3]])
     if t == "in":
         return any(ref_cells("==", row[q[1]], tuple(k)) for k in q[2])
+    if t == "cmpt":
+        a, b = ref_term(q[1], row), ref_term(q[3], row)
+        return ref_cmp(q[2], a, b) if a is not None and b is not None else q[2] == "!="
     if t == "and":
         return ref_eval(q[1], row) and ref_eval(q[2], row)
     if t == "or":
@@ -397,7 +471,7 @@ def gen_hist(rng: random.Random):
     k = rng.choice([1, 2, 2, 3, 3, 4, 5])
     names = rng.sample(POOL, k)
     if rng.random() < 0.25 and not any("tracked" in n for n in names):
-        names[rng.randrange(k)] = rng.choice(["tracked_by", "untracked_n"])
+        names[rng.randrange(k)] = rng.choice(["tracked_by", "untracked_n", "tracked by", "is tracked"])
     dts = {n: rng.choice(DTS) for n in names}
     cut = rng.randint(0, k)
     g1, g2 = names[:cut], names[cut:]
@@ -474,7 +548,9 @@ def gen_hist(rng: random.Random):
         ops = []
         for _ in range(rng.choice([0, 1, 1, 2, 3])):
             r = rng.random()
-            if r < 0.25:
+            if r < 0.06:
+                ops.append(["pop", rng.random() < 0.4])
+            elif r < 0.25:
                 ops.append(gen_sub(table_cols))
             elif r < 0.45 and writes and state["n"]:
                 ops.append(gen_write())
@@ -496,11 +572,13 @@ def gen_hist(rng: random.Random):
             ops.append(gen_write() if state["n"] else gen_read())
         elif r < 0.36:
             ops.append(gen_bad())
-        elif r < 0.41:
+        elif r < 0.39:
+            ops.append(["pop", rng.random() < 0.4])
+        elif r < 0.44:
             g = rng.choice([0, 1, 1, 2, 3])
             state["n"] += g
             ops.append(["grow", g, gen_inner(universe)])
-        elif r < 0.50:
+        elif r < 0.52:
             ph = rng.choice(PHASES + [None])
             ops.append(["step", ph, gen_inner(universe, writes=True) if ph else []])
             steps += 1
@@ -769,6 +847,30 @@ class Driver:
             self.tags.append("read:extra_query_with_comment")
         self.trace.append(["read", k, idx, text, code, obs_cols, [[l, cells] for l, cells in obs_rows][:12]])
 
+    def do_pop(self, op):
+        """manager.get_population(untracked) through the public InteractiveContext.get_population"""
+        untracked = bool(op[1])
+        t = self.table
+        df = self.sim.get_population(untracked)
+        cols, rows = canon_frame(df)
+        exp = [l for l in t["labels"] if untracked or t["rows"][l]["tracked"] == ("b", True)]
+        where = f"get_population(untracked={untracked})"
+        if [l for l, _ in rows] != exp:
+            self.fail.append(f"{where}: labels {[l for l, _ in rows]}, expected {exp}")
+        elif sorted(cols) != sorted(t["cols"]):
+            self.fail.append(f"{where}: columns {cols}, expected {t['cols']}")
+        else:
+            for l, cells in rows:
+                if cells != [t["rows"][l][c] for c in cols]:
+                    self.fail.append(f"{where}: row {l} = {cells}, table has {[t['rows'][l][c] for c in cols]}")
+                    break
+        self.mutate(df)
+        self.unchanged_check(f"{where}: after mutating the returned frame")
+        self.emit("(OPop %s (mk_frame %s %s))" % (cbool(untracked), czlist(NAME2ID[c] for c in cols),
+                                                  clist(cpair(cz(l), clist(c_cell(c) for c in cells)) for l, cells in rows)))
+        self.tags.append(f"pop:untracked={untracked}")
+        self.trace.append(["pop", untracked, [l for l, _ in rows]])
+
     def mutate(self, res):
         try:
             for j in range(res.shape[1]):
@@ -853,6 +955,8 @@ class Driver:
                 self.do_sub(op)
             elif kind == "read":
                 self.do_read(op)
+            elif kind == "pop":
+                self.do_pop(op)
             elif kind == "write":
                 if writes:
                     self.do_write(op)
@@ -1069,9 +1173,144 @@ def corpus():
     return cases
 
 
+# ----------------------------------------------------------------------------------------------------------------
+# shrinking: smaller variants of a failing history (views are numbered roots first, then sub-views in execution order)
+# ----------------------------------------------------------------------------------------------------------------
+def _walk(case):
+    """every operation list of the case in execution order: (list, position of its owner in the parent or None)"""
+    yield case["early0"]
+    yield case["ops"]
+    for op in case["ops"]:
+        if op[0] in ("grow", "step"):
+            yield op[2]
+        elif op[0] == "finalize":
+            yield op[1]
+
+
+def _exec_order(case):
+    """[(list, index)] of all operations in the order in which they run"""
+    out = [(case["early0"], i) for i in range(len(case["early0"]))]
+    for i, op in enumerate(case["ops"]):
+        inner = op[2] if op[0] in ("grow", "step") else op[1] if op[0] == "finalize" else None
+        if op[0] == "grow" and inner is not None:      # the initializer runs before the birth completes
+            out += [(inner, j) for j in range(len(inner))]
+            out.append((case["ops"], i))
+        else:
+            out.append((case["ops"], i))
+            if inner is not None:
+                out += [(inner, j) for j in range(len(inner))]
+    return out
+
+
+def _drop_view(case, v):
+    """remove view number v (a root or the sub-view created by some `sub`) and everything that refers to it"""
+    import copy
+    c = copy.deepcopy(case)
+    nroots = len(c["roots"])
+    dead = {v}
+    number = nroots
+    marks = []                      # operations to delete (by identity)
+    for lst, i in _exec_order(c):
+        op = lst[i]
+        if op[0] == "sub":
+            me = number
+            number += 1
+            if me in dead or op[1] in dead:
+                dead.add(me); marks.append(id(op))
+        elif op[0] == "read" and op[1] in dead:
+            marks.append(id(op))
+
+    def new_index(k):
+        return k - sum(1 for x in dead if x < k)
+    for lst in list(_walk(c)):
+        lst[:] = [op for op in lst if id(op) not in marks]
+        for op in lst:
+            if op[0] in ("sub", "read"):
+                op[1] = new_index(op[1])
+    c["roots"] = [r for k, r in enumerate(c["roots"]) if k not in dead]
+    return c if c["roots"] else None
+
+
+def shrink_hist(case):
+    import copy
+    nroots = len(case["roots"])
+    # big steps first: no reads inside the first initializer, the history cut in half (from the end, then from the
+    # front - operations that create views or simulants stay, later operations may refer to them)
+    if case["early0"]:
+        c = copy.deepcopy(case); c["early0"] = []; yield c
+    n = len(case["ops"])
+    if n > 1:
+        c = copy.deepcopy(case); c["ops"] = c["ops"][: n // 2]; yield c
+        c = copy.deepcopy(case)
+        c["ops"] = [op for op in c["ops"][: n // 2] if op[0] in ("sub", "grow", "write")] + c["ops"][n // 2:]
+        if len(c["ops"]) < n:
+            yield c
+        c = copy.deepcopy(case)
+        c["ops"] = [op for i, op in enumerate(c["ops"]) if op[0] in ("sub", "grow") or i == n - 1 or op[0] == "write"]
+        if len(c["ops"]) < n:
+            yield c
+    # drop a root view / a sub-view with its dependants
+    number = nroots
+    subs = []
+    for lst, i in _exec_order(case):
+        if lst[i][0] == "sub":
+            subs.append(number); number += 1
+    for v in list(range(nroots)) + subs:
+        c = _drop_view(case, v)
+        if c is not None:
+            yield c
+    # drop one operation that creates no view
+    lists = list(_walk(case))
+    for li, lst in enumerate(lists):
+        for i, op in enumerate(lst):
+            if op[0] in ("sub", "grow"):
+                continue
+            c = copy.deepcopy(case)
+            del list(_walk(c))[li][i]
+            yield c
+    # a birth without operations inside / a birth dropped when nothing later refers to its simulants is too intricate:
+    # only empty its inner list
+    for i, op in enumerate(case["ops"]):
+        if op[0] in ("grow", "step") and op[2]:
+            c = copy.deepcopy(case); c["ops"][i][2] = []; yield c
+    # smaller requests, no extra query, simpler queries
+    det = random.Random(0)
+    for li, lst in enumerate(lists):
+        for i, op in enumerate(lst):
+            if op[0] != "read":
+                continue
+            for j in range(len(op[2])):
+                c = copy.deepcopy(case); del list(_walk(c))[li][i][2][j]; yield c
+            if op[3] is not None:
+                c = copy.deepcopy(case); o = list(_walk(c))[li][i]; o[3], o[4] = None, ""; yield c
+                for sub in (op[3][1:3] if op[3][0] in ("and", "or") else [op[3][1]] if op[3][0] == "not" else []):
+                    c = copy.deepcopy(case); o = list(_walk(c))[li][i]; o[3], o[4] = sub, render(det, sub); yield c
+    for k, r in enumerate(case["roots"]):
+        if r["q"] is not None:
+            for sub in (r["q"][1:3] if r["q"][0] in ("and", "or") else [r["q"][1]] if r["q"][0] == "not" else []):
+                c = copy.deepcopy(case); c["roots"][k]["q"], c["roots"][k]["text"] = sub, render(det, sub); yield c
+            if "#" in r["text"]:
+                c = copy.deepcopy(case); c["roots"][k]["text"] = render(det, r["q"]); yield c
+        if len(r["cols"]) > 1:
+            for j in range(len(r["cols"])):
+                c = copy.deepcopy(case); del c["roots"][k]["cols"][j]; c["roots"][k]["as_str"] = False; yield c
+    # fewer columns in a multi-column update
+    for li, lst in enumerate(lists):
+        for i, op in enumerate(lst):
+            if op[0] == "write" and len(op[1]) > 1:
+                for j in range(len(op[1])):
+                    c = copy.deepcopy(case); o = list(_walk(c))[li][i]; del o[1][j]; del o[3][j]; yield c
+            if op[0] == "write" and len(op[2]) > 1:
+                for j in range(len(op[2])):
+                    c = copy.deepcopy(case); o = list(_walk(c))[li][i]; del o[2][j]
+                    for vs in o[3]:
+                        del vs[j]
+                    yield c
+
+
 def streams(tier):
     return [
         Stream(name="hist", imports="From Viv Require Import Common PopRead.", check="check_hist", gen=gen_hist,
-               run=run_hist, n_quick=300, n_thorough=3000, corpus=corpus,
+               run=run_hist, n_quick=300, n_thorough=3000, corpus=corpus, shrink=shrink_hist,
                doc="histories of view creations, updates, births, steps and reads on real PopulationViews"),
     ]
